@@ -7,7 +7,7 @@ From RecordUpdate Require Import RecordSet.
 From V Require Import Model.ZMap Model.Quorum Model.Voting Model.HgImpl Model.HgReset
   Proofs.ZMapFacts Proofs.HgFrames Proofs.HgDagFrames Proofs.AdmissionProofs Proofs.Ancestry
   Proofs.BlockInv Proofs.OrderSort Proofs.OrderFrames Proofs.OrderProofs Proofs.Static
-  Proofs.NoFail Proofs.FrameFn Proofs.FrameInv Proofs.BlockAgree Proofs.ResetProofs Proofs.ResetServer Proofs.ResetMemo.
+  Proofs.FirstDesc Proofs.NoFail Proofs.RoundReceived Proofs.FrameFn Proofs.FrameInv Proofs.BlockAgree Proofs.ResetProofs Proofs.ResetServer Proofs.ResetMemo Proofs.ResetAfter Proofs.ResetOrder Proofs.ResetDag.
 Import ListNotations RecordSetNotations.
 Open Scope Z_scope.
 
@@ -74,6 +74,31 @@ Section Chain.
     f_equal. rewrite <- (map_id (h :: sp_chain S h ROOT_DEPTH)) at 2. apply map_ext. intros x. apply fe_of_id.
   Qed.
 End Chain.
+
+(** * Rounds do not increase down a self-parent chain *)
+Section ChainRounds.
+  Variables (g : peerset) (S : hg).
+  Hypothesis I : cinv g None S.
+
+  Lemma sp_round_le x r : rmemo S x = Some r -> sp_of S x <> -1 ->
+    exists rp, rmemo S (sp_of S x) = Some rp /\ rp <= r.
+  Proof.
+    intros Hr Hn. destruct (c_rdom _ _ _ I x r Hr) as [_ [ex [Hx [spr [opr [Hs [_ [H1 H2]]]]]]]].
+    unfold sp_of in *. rewrite Hx in *. unfold prnd in Hs. destruct (Z.eqb_spec (e_sp (ev_e ex)) (-1)); [contradiction|].
+    exists spr. split; [exact Hs|]. destruct (Z.eq_dec (Z.max spr opr) (-1)) as [E|E].
+    - specialize (H1 E). lia.
+    - destruct (H2 E) as [_ ->]. destruct (_ <=? _); lia.
+  Qed.
+
+  Lemma sp_chain_round_le n : forall h r, rmemo S h = Some r ->
+    forall x, In x (sp_chain S h n) -> exists rx, rmemo S x = Some rx /\ rx <= r.
+  Proof.
+    induction n as [|n IH]; intros h r Hr x; cbn [sp_chain]; [intros []|].
+    destruct (Z.eqb_spec (sp_of S h) (-1)) as [E|Hne]; [intros []|].
+    destruct (sp_round_le h r Hr Hne) as [rp [Hrp Hle]].
+    intros [<-|Hin]; [exists rp; auto|]. destruct (IH _ rp Hrp x Hin) as [rx [Hrx Hlx]]. exists rx. split; [exact Hrx|lia].
+  Qed.
+End ChainRounds.
 
 (** * The roots folds *)
 
@@ -217,13 +242,18 @@ Section Shape.
   Let OK : dag_ok S := g_dag _ _ (gi_core _ _ G).
   Let FR : fready g S := nf_fready g all S N.
 
+  (* frame events are received in a later round than the one they were created in *)
+  Hypothesis RR : forall R0 f0 fe, zget R0 (frames S) = Some f0 -> In fe (f_events f0) ->
+                  exists r, rmemo S (fe_id fe) = Some r /\ r < R0.
+
   Let ids := map fe_id (f_events f).
 
   (* what is known of a root: the chain below a head of the key's creator, disjoint from the frame's events *)
   Definition rootP (c : Z) (l : list frameev) : Prop :=
     exists h, l = root_fn S h /\
       (h = -1 \/ exists he, get_event S h = Some he /\ e_creator (ev_e he) = c) /\
-      (h <> -1 -> forall x, In x (h :: sp_chain S h ROOT_DEPTH) -> ~ In x ids).
+      (h <> -1 -> forall x, In x (h :: sp_chain S h ROOT_DEPTH) -> ~ In x ids) /\
+      (h <> -1 -> exists r, rmemo S h = Some r /\ r < R).
 
   Lemma frame_facts : f_round f = R /\ lt_sorted (f_events f) /\ NoDup ids /\
     (forall fe, In fe (f_events f) -> exists ex, get_event S (fe_id fe) = Some ex /\ lt_of S (fe_id fe) = fe_lt fe).
@@ -250,7 +280,7 @@ Section Shape.
     assert (Hin : In fe (f_events f)) by (rewrite Ev; apply in_app_iff; right; left; reflexivity).
     destruct (Facts fe Hin) as [ex [Hx Lx]].
     assert (Cx : creator_of S (fe_id fe) = e_creator (ev_e ex)) by (unfold creator_of; rewrite Hx; reflexivity).
-    exists (sp_of S (fe_id fe)). split; [reflexivity|]. split.
+    exists (sp_of S (fe_id fe)). split; [reflexivity|]. split; [|split].
     - destruct (Z.eq_dec (sp_of S (fe_id fe)) (-1)) as [?|Hne]; [left; assumption|right].
       destruct (sp_stored all S G NF _ ex Hx Hne) as [ep [Hep [Hc _]]]. exists ep. split; [exact Hep|congruence].
     - intros Hne y Hy Hids.
@@ -263,28 +293,32 @@ Section Shape.
       + assert (Hin2 : In e' (f_events f)) by (rewrite Ev; apply in_app_iff; right; right; exact Hpost).
         destruct (Facts e' Hin2) as [_ [_ Le']]. rewrite Ev in Srt.
         pose proof (sorted_after _ pre fe post Srt e' Hpost) as Hle. cbn beta in Hle. subst y. lia.
+    - intros Hne. destruct (RR R f fe Hf Hin) as [r [Hr Hlt]].
+      destruct (sp_round_le g S (nf_c _ _ _ N) _ r Hr Hne) as [rp [Hrp Hle]]. exists rp. split; [exact Hrp|lia].
   Qed.
 
-  Lemma lce_head_ok k h : aget k (lce_fn (creator_of S) (frames S) (Z.to_nat R)) = Some h ->
-    exists he, get_event S h = Some he /\ e_creator (ev_e he) = k.
+  Lemma lce_head_ok k h : 0 <= R -> aget k (lce_fn (creator_of S) (frames S) (Z.to_nat R)) = Some h ->
+    (exists he, get_event S h = Some he /\ e_creator (ev_e he) = k) /\ exists r, rmemo S h = Some r /\ r < R.
   Proof.
-    intros H. destruct (lce_fn_creator _ _ _ _ _ H) as [Hc [R0 [f0 [_ [Hf0 Hin]]]]].
+    intros HR H. destruct (lce_fn_creator _ _ _ _ _ H) as [Hc [R0 [f0 [HR0 [Hf0 Hin]]]]].
     apply in_map_iff in Hin. destruct Hin as [fe [Eid Hfe]].
     destruct (gi_f _ _ G R0 f0 Hf0) as [_ [_ [_ [_ [F0 _]]]]]. destruct (F0 fe Hfe) as [ex Hex]. rewrite Eid in Hex.
-    exists ex. split; [exact Hex|]. unfold creator_of in Hc. rewrite Hex in Hc. exact Hc.
+    split; [exists ex; split; [exact Hex|]; unfold creator_of in Hc; rewrite Hex in Hc; exact Hc|].
+    destruct (RR R0 f0 fe Hf0 Hfe) as [r [Hr Hlt]]. rewrite Eid in Hr. exists r. split; [exact Hr|lia].
   Qed.
 
-  Theorem FE_frame_shape : frame_shape f.
+  Theorem FE_frame_shape : frame_shape f /\ Forall (fun fe => fe_round fe < R) (all_frame_events f).
   Proof.
     destruct frame_facts as [_ [Srt [NDe Facts]]].
+    assert (HR0 : 0 <= R) by (eapply zget_some_nonneg; exact Hf).
     set (lce := lce_fn (creator_of S) (frames S) (Z.to_nat R)).
     set (roots1 := roots1_fn (creator_of S) (sp_of S) (fun _ h => root_fn S h) (f_events f) []).
     destruct (roots1_inv (creator_of S) (sp_of S) (fun _ h => root_fn S h) rootP (f_events f) phase1_root) as [A1 [N1 [K1 _]]].
     fold roots1 in A1, N1, K1.
     destruct (roots2_inv (fun _ h => root_fn S h) rootP (repertoire S) (first_rounds S) lce R roots1 A1 N1) as [A2 [N2 _]].
     { intros k Hk. exists (lce_head lce k). split; [reflexivity|]. unfold lce_head.
-      destruct (aget k lce) as [h|] eqn:Al; [|split; [left; reflexivity|intros C; contradiction]].
-      destruct (lce_head_ok k h Al) as [he [Hhe Hc]]. split; [right; exists he; auto|].
+      destruct (aget k lce) as [h|] eqn:Al; [|split; [left; reflexivity|split; intros C; contradiction]].
+      destruct (lce_head_ok k h HR0 Al) as [[he [Hhe Hc]] Hrd]. split; [right; exists he; auto|]. split; [|intros _; exact Hrd].
       intros _ y Hy Hids. destruct (chain_member h he y Hhe Hy) as [ey [Hey [Hcy _]]].
       apply in_map_iff in Hids. destruct Hids as [e' [Eid Hin']].
       apply (K1 e' Hin'). replace (creator_of S (fe_id e')) with k; [exact Hk|].
@@ -296,8 +330,8 @@ Section Shape.
     assert (RootIds : forall c l, In (c, l) (f_roots f) ->
               NoDup (map fe_id l) /\
               (forall x, In x (map fe_id l) -> (exists ex, get_event S x = Some ex /\ e_creator (ev_e ex) = c) /\ ~ In x ids) /\
-              Forall (fun fe => 0 <= fe_id fe /\ 0 <= fe_round fe) l).
-    { intros c l Hin. destruct (A2 c l Hin) as [h [-> [Hh Hdis]]]. rewrite (root_fn_ids S h).
+              Forall (fun fe => 0 <= fe_id fe /\ 0 <= fe_round fe /\ fe_round fe < R) l).
+    { intros c l Hin. destruct (A2 c l Hin) as [h [-> [Hh [Hdis Hrd]]]]. rewrite (root_fn_ids S h).
       destruct (Z.eqb_spec h (-1)) as [->|Hne].
       { split; [constructor|split; [intros x []|]]. unfold root_fn. cbn. constructor. }
       destruct Hh as [?|[he [Hhe Hc]]]; [contradiction|].
@@ -308,8 +342,13 @@ Section Shape.
         apply in_map_iff in Hfe. destruct Hfe as [x [<- Hx]]. destruct (chain_member h he x Hhe Hx) as [ex [Hex _]].
         pose proof (create_frame_event_some g S x FR ltac:(rewrite Hex; discriminate)) as Hs.
         unfold fe_of. destruct (create_frame_event S x) as [fe|] eqn:Cf; [|contradiction].
-        destruct (from_cfe_ok S fe (ex_intro _ x Cf)) as (_ & _ & _ & _ & P1 & P2). auto. }
-    constructor.
+        destruct (from_cfe_ok S fe (ex_intro _ x Cf)) as (Mr & _ & _ & _ & P1 & P2). rewrite (cfe_id _ _ _ Cf) in Mr.
+        split; [exact P1|split; [exact P2|]].
+        destruct (Hrd Hne) as [rh [Hrh Hlt]].
+        destruct Hx as [<-|Hx]; [unfold rmemo in Hrh; rewrite Hrh in Mr; inversion Mr; lia|].
+        destruct (sp_chain_round_le g S (nf_c _ _ _ N) ROOT_DEPTH h rh Hrh x Hx) as [rx [Hrx Hle]].
+        unfold rmemo in Hrx. rewrite Hrx in Mr. inversion Mr. lia. }
+    split; [constructor|].
     - unfold all_frame_events, root_events. rewrite map_app. apply NoDup_app_intro'.
       + apply nodup_flat_roots; [exact N2|intros c l Hin; apply (RootIds c l Hin)|].
         intros c l c' l' x Hin Hin' Hne Hx Hx'.
@@ -321,10 +360,16 @@ Section Shape.
         apply (proj2 (proj1 (proj2 (RootIds c l Hcl)) x ltac:(rewrite <- Eid; apply in_map; exact Hfe))).
     - unfold all_frame_events, root_events. apply Forall_app. split.
       + rewrite Forall_forall. intros fe Hfe. apply in_flat_map in Hfe. destruct Hfe as [[c l] [Hcl Hfe]]. cbn [snd] in Hfe.
-        pose proof (proj2 (proj2 (RootIds c l Hcl))) as Fp. rewrite Forall_forall in Fp. apply Fp. exact Hfe.
+        pose proof (proj2 (proj2 (RootIds c l Hcl))) as Fp. rewrite Forall_forall in Fp. destruct (Fp fe Hfe) as [X1 [X2 _]]. auto.
       + pose proof (fe_evs _ _ _ _ E) as Fe. rewrite Forall_forall in *. intros fe Hfe.
         destruct (from_cfe_ok S fe (ex_intro _ (fe_id fe) (Fe fe Hfe))) as (_ & _ & _ & _ & P1 & P2). auto.
     - rewrite (fe_psets _ _ _ _ E). cbn. constructor; constructor.
+    - unfold all_frame_events, root_events. apply Forall_app. split.
+      + rewrite Forall_forall. intros fe Hfe. apply in_flat_map in Hfe. destruct Hfe as [[c l] [Hcl Hfe]]. cbn [snd] in Hfe.
+        pose proof (proj2 (proj2 (RootIds c l Hcl))) as Fp. rewrite Forall_forall in Fp. apply (Fp fe Hfe).
+      + pose proof (fe_evs _ _ _ _ E) as Fe. rewrite Forall_forall in *. intros fe Hfe.
+        destruct (RR R f fe Hf Hfe) as [r [Hr Hlt]].
+        destruct (from_cfe_ok S fe (ex_intro _ (fe_id fe) (Fe fe Hfe))) as (Mr & _). unfold rmemo in Hr. rewrite Hr in Mr. inversion Mr. lia.
   Qed.
 End Shape.
 
@@ -334,14 +379,36 @@ Section Served.
   Hypothesis ID : ids_determine all.
   Hypothesis NA : no_accept all.
 
-  Theorem served_frame_shape self_ oracle_ ops R f :
-    Forall (hop_ok all) ops -> zget R (frames (hrun (init_hg self_ g oracle_) ops)) = Some f -> frame_shape f.
+  (* an event of a cached frame was created in an earlier round than the frame's *)
+  Lemma frame_event_round self_ oracle_ ops R0 f0 fe :
+    Forall (hop_ok all) ops -> zget R0 (frames (hrun (init_hg self_ g oracle_) ops)) = Some f0 -> In fe (f_events f0) ->
+    exists r, rmemo (hrun (init_hg self_ g oracle_) ops) (fe_id fe) = Some r /\ r < R0.
+  Proof.
+    intros Ho Hz Hfe. pose proof (hrun_nf g all self_ oracle_ ops ID NA Ho) as N.
+    set (st := hrun (init_hg self_ g oracle_) ops) in *.
+    pose proof (nf_g _ _ _ N) as G.
+    destruct (gi_f _ _ G R0 f0 Hz) as [_ [_ [_ [D _]]]]. destruct (D fe Hfe) as [Hrcv _].
+    destruct (c_in _ (g_o _ _ (gi_core _ _ G)) R0 _ Hrcv) as [ex [Hex Hrr]].
+    destruct (rr_spec_hrun g all self_ oracle_ ops (fe_id fe) ex R0 ID NA Ho Hex Hrr) as [r [Hr [Hlt _]]].
+    destruct (c_all _ _ _ (nf_c _ _ _ N) (fe_id fe) ex Hex ltac:(discriminate)) as [r' [w [Hm [_ Hr']]]].
+    exists r. split; [congruence|exact Hlt].
+  Qed.
+
+  Theorem served_frame_facts self_ oracle_ ops R f :
+    Forall (hop_ok all) ops -> zget R (frames (hrun (init_hg self_ g oracle_) ops)) = Some f ->
+    frame_shape f /\ Forall (fun fe => fe_round fe < R) (all_frame_events f).
   Proof.
     intros Ho Hz.
     destruct (f2_fe g self_ oracle_ ops (hrun_finv2 g all ID NA self_ oracle_ ops Ho) R f Hz) as [k [_ [E Hk]]].
-    pose proof (hrun_nf g all self_ oracle_ (firstn k ops) ID NA (Forall_firstn' _ _ k Ho)) as N.
-    exact (FE_frame_shape g all _ R f N Hk E).
+    pose proof (Forall_firstn' _ _ k Ho) as Hok.
+    pose proof (hrun_nf g all self_ oracle_ (firstn k ops) ID NA Hok) as N.
+    apply (FE_frame_shape g all _ R f N Hk E).
+    intros R0 f0 fe H0 Hfe. apply (frame_event_round self_ oracle_ (firstn k ops) R0 f0 fe Hok H0 Hfe).
   Qed.
+
+  Theorem served_frame_shape self_ oracle_ ops R f :
+    Forall (hop_ok all) ops -> zget R (frames (hrun (init_hg self_ g oracle_) ops)) = Some f -> frame_shape f.
+  Proof. intros Ho Hz. apply (served_frame_facts self_ oracle_ ops R f Ho Hz). Qed.
 
   (* the frame GetAnchorBlockWithFrame answers is a cached frame *)
   Lemma anchor_frame_cached self_ oracle_ ops b f cores s' :
@@ -362,6 +429,18 @@ Section Served.
   Proof.
     intros Ho Hs H. eapply served_frame_shape; [exact Ho|]. eapply anchor_frame_cached; eauto.
   Qed.
+
+  (* every round recorded in the anchor's frame is below the anchor's round-received, which is >= 0 *)
+  Theorem anchor_frame_rounds self_ oracle_ ops b f cores s' :
+    Forall (hop_ok all) ops -> self_ <> -1 ->
+    anchor_block_with_frame (hrun (init_hg self_ g oracle_) ops) = (Some (b, f, cores), s') ->
+    0 <= b_rr b /\ Forall (fun fe => fe_round fe <= b_rr b) (all_frame_events f).
+  Proof.
+    intros Ho Hs H. pose proof (anchor_frame_cached self_ oracle_ ops b f cores s' Ho Hs H) as Hc.
+    split; [eapply zget_some_nonneg; exact Hc|].
+    destruct (served_frame_facts self_ oracle_ ops (b_rr b) f Ho Hc) as [_ F].
+    eapply Forall_impl; [|exact F]. cbn beta. intros fe Hlt. lia.
+  Qed.
 End Served.
 
 (** * [frame_shapeb] is complete *)
@@ -380,4 +459,43 @@ Lemma frame_shapeb_complete f : frame_shape f -> frame_shapeb f = true.
 Proof.
   intros [A B C]. unfold frame_shapeb. rewrite (nodupb_complete _ A), (sorted_ltb_complete _ C), andb_true_r. cbn [andb].
   apply forallb_forall. intros fe Hfe. rewrite Forall_forall in B. destruct (B fe Hfe). lia.
+Qed.
+
+(** * After a fast-forward from an honest peer (static membership): C02 for the reset node *)
+Theorem after_reset_served g all ss os ops b f cores s' v v' ops' :
+  ids_determine all -> no_accept all -> Forall (hop_ok all) ops -> ss <> -1 ->
+  anchor_block_with_frame (hrun (init_hg ss g os) ops) = (Some (b, f, cores), s') ->
+  node_fast_forward v b f cores = (true, v') ->
+  exists news, delivered (hrun v' ops') = delivered v ++ news /\
+    (forall k d, nth_error news k = Some d -> b_index d = b_index b + 1 + Z.of_nat k) /\
+    StronglySorted Z.lt (map b_rr news) /\ (forall d, In d news -> b_rr b < b_rr d).
+Proof.
+  intros ID NA Ho Hs H FF.
+  pose proof (anchor_frame_shape g all ID NA ss os ops b f cores s' Ho Hs H) as FS.
+  destruct (anchor_frame_rounds g all ID NA ss os ops b f cores s' Ho Hs H) as [R0 RB].
+  destruct (anchor_answer all ss g os ops b f cores s' ID Ho Hs H) as [_ [_ [_ [k [d [_ [Hb _]]]]]]].
+  destruct (b_idx _ (hrun_binv ss g os ops) _ _ Hb) as [Hi _].
+  destruct (ResetAfter.deliveries_after_reset_consecutive v b f cores v' ops' FF) as [news [D1 [_ Hn]]].
+  destruct (ResetOrder.deliveries_after_reset_increasing v b f cores v' FS RB R0 FF ops') as [news' [D2 [Srt Hgt]]].
+  assert (news' = news) by (rewrite D1 in D2; apply app_inv_head in D2; congruence). subst news'.
+  exists news. split; [exact D1|]. split; [|split; [exact Srt|exact Hgt]].
+  intros j dj Hj. destruct (Hn j dj Hj) as [A _]. rewrite A. lia.
+Qed.
+
+(** * After a fast-forward from an honest peer (static membership): C07 for the reset node.
+      [all] is the universe both the responder's and the reset node's insertion attempts are drawn
+      from (identifiers determine bodies in it) *)
+Theorem admitted_after_reset_served g all ss os ops b f cores s' v v' ops' :
+  ids_determine all -> no_accept all -> Forall (hop_ok all) ops -> ss <> -1 ->
+  anchor_block_with_frame (hrun (init_hg ss g os) ops) = (Some (b, f, cores), s') ->
+  node_fast_forward v b f cores = (true, v') -> Forall (hop_ok all) ops' ->
+  dag_okR (frame_ids f) (hrun v' ops') /\ from_attempts (hrun v' ops') all /\ grows v' (hrun v' ops').
+Proof.
+  intros ID NA Ho Hs H FF Ho'.
+  pose proof (anchor_frame_shape g all ID NA ss os ops b f cores s' Ho Hs H) as FS.
+  destruct (anchor_answer all ss g os ops b f cores s' ID Ho Hs H) as [_ [_ [Hc _]]].
+  pose proof (hrun_ginv all ss g os ops ID Ho) as G.
+  assert (CO : cores_ok all cores f).
+  { rewrite Hc. apply served_cores_ok; [apply (g_dag _ _ (gi_core _ _ G))|apply (g_from _ _ (gi_core _ _ G))]. }
+  apply (admitted_after_reset v b f cores v' all ops' FS CO ID Ho' FF).
 Qed.
